@@ -5,6 +5,7 @@ import AvoVerif.Props.C11Examples
 import AvoVerif.Props.C11Accept
 import AvoVerif.Props.C11Bind
 import AvoVerif.Props.C11Hist
+import AvoVerif.Props.C11Cover
 #print axioms Avo.Print.flush_complete
 #print axioms Avo.Print.flush_complete_function
 #print axioms Avo.Print.labels_bound
@@ -47,3 +48,10 @@ import AvoVerif.Props.C11Hist
 #print axioms Avo.Print.Hist.edit_suffixes_printed
 #print axioms Avo.Print.Hist.edit_instr_count
 #print axioms Avo.Print.Hist.acceptHist_sound
+#print axioms Avo.Drv.C11.acceptGl_sound
+#print axioms Avo.Drv.C11.acceptObjDataE_sound
+#print axioms Avo.Drv.C11.exObjData_accepted
+#print axioms Avo.AsmLit.scan_point
+#print axioms Avo.AsmLit.scan_point_exp
+#print axioms Avo.AsmLit.scan_exp
+#print axioms Avo.AsmLit.withPoint_float
